@@ -8,7 +8,7 @@
     [step_self] = the per-action combination; [react_all] = one [react] per occurrence, in order;
     [step_abs] = the abstract per-argument fold; [enc k] = what a Count flag holds after k occurrences. *)
 From ClapModel Require Import Base.Bytes Base.Machine.
-From ClapModel Require Import Parse.Cmd Parse.Build Parse.Valid Parse.Matcher Parse.Errors Parse.Parser ParseProofs.Actions ParseProofs.ActionsLoop ParseProofs.ActionsTokens ParseProofs.ActionsTop ParseProofs.ActionsWide ParseProofs.ActionsWideTop.
+From ClapModel Require Import Parse.Cmd Parse.Build Parse.Valid Parse.Matcher Parse.Errors Parse.Parser ParseProofs.Actions ParseProofs.ActionsLoop ParseProofs.ActionsTokens ParseProofs.ActionsTop ParseProofs.ActionsWide ParseProofs.ActionsWideTop ParseProofs.ActionsGraph ParseProofs.ActionsRequired.
 From Coq Require Import ZArith.
 Open Scope N_scope.
 
@@ -560,3 +560,106 @@ Theorem C07_wide_bare_append : forall c0 bin tok idn a n m,
   exists e, fm_get (a_id a) (ms_args m) = Some e /\ m_raw e = repeat [] n /\ m_source e = Some SCmdLine.
 Proof. exact wide_top_bare_append. Qed.
 Print Assumptions C07_wide_bare_append.
+
+(** ======== round 3: arbitrary override graphs (ParseProofs/ActionsGraph.v) ========
+    [overrider c i o] = [o] is a command-line occurrence of ANOTHER argument in an override relation with [i], declared
+    on either side; [live c i os] = the occurrences after the LAST overrider of [i] (all of [os] when there is none).
+    However many arguments are related to [i] and in whatever order they appear, what [i] holds after the line is the
+    fold of the live occurrences alone. *)
+Theorem C07_live_suffix : forall c i os,
+  (existsb (overrider c i) os = false /\ live c i os = os) \/
+  (exists pre o, os = pre ++ o :: live c i os /\ overrider c i o = true).
+Proof. exact live_suffix. Qed.
+Print Assumptions C07_live_suffix.
+
+Theorem C07_live_no_overrider : forall c i os, existsb (overrider c i) (live c i os) = false.
+Proof. exact live_no_overrider. Qed.
+Print Assumptions C07_live_no_overrider.
+
+Theorem C07_override_graph_fold : forall c i os,
+  fold_left (step_abs c i) os None = fold_left (step_abs c i) (live c i os) None.
+Proof. exact abs_live. Qed.
+Print Assumptions C07_override_graph_fold.
+
+Theorem C07_top_override_graph : forall c0 bin toks os m a,
+  let c := build_self (with_bin c0 bin) in
+  top_class c0 bin toks os -> parse_top c0 (bin :: toks) = OOk m -> In a (c_args c) ->
+  match fold_left (step_abs c (a_id a)) (live c (a_id a) os) None with
+  | Some g => exists e, fm_get (a_id a) (ms_args m) = Some e /\ m_raw e = g /\ m_source e = Some SCmdLine
+  | None => forall e, fm_get (a_id a) (ms_args m) = Some e -> m_source e = Some SEnv \/ m_source e = Some SDefault
+  end.
+Proof. exact top_override_graph. Qed.
+Print Assumptions C07_top_override_graph.
+
+Theorem C07_wide_override_graph : forall c0 bin toks os m a,
+  let c := build_self (with_bin c0 bin) in
+  wide_class c0 bin toks os -> parse_top c0 (bin :: toks) = OOk m -> In a (c_args c) ->
+  match fold_left (step_abs c (a_id a)) (live c (a_id a) os) None with
+  | Some g => exists e, fm_get (a_id a) (ms_args m) = Some e /\ m_raw e = g /\ m_source e = Some SCmdLine
+  | None => forall e, fm_get (a_id a) (ms_args m) = Some e -> m_source e = Some SEnv \/ m_source e = Some SDefault
+  end.
+Proof. exact wide_override_graph. Qed.
+Print Assumptions C07_wide_override_graph.
+
+(** Count in ANY override graph (no [override_free] hypothesis): the number of occurrences after the last overrider *)
+Theorem C07_wide_count_graph : forall c0 bin toks os m a,
+  let c := build_self (with_bin c0 bin) in
+  wide_class c0 bin toks os -> parse_top c0 (bin :: toks) = OOk m -> In a (c_args c) ->
+  count_flag a ->
+  let n := count_occ (a_id a) (live c (a_id a) os) in
+  ((0 < n)%nat -> exists e, fm_get (a_id a) (ms_args m) = Some e /\
+       m_raw e = [[n_to_dec (N.min (N.of_nat n) 255)]] /\ m_source e = Some SCmdLine) /\
+  (n = 0%nat -> forall e, fm_get (a_id a) (ms_args m) = Some e -> m_source e = Some SEnv \/ m_source e = Some SDefault).
+Proof. exact wide_count_graph. Qed.
+Print Assumptions C07_wide_count_graph.
+
+(** Append in ANY override graph (the argument does not override itself): the live occurrences' values, one group each *)
+Theorem C07_wide_append_graph : forall c0 bin toks os m a,
+  let c := build_self (with_bin c0 bin) in
+  wide_class c0 bin toks os -> parse_top c0 (bin :: toks) = OOk m -> In a (c_args c) ->
+  a_get_action a = AAppend -> overridden c a (a_id a) = false ->
+  let lv := live c (a_id a) os in
+  ((0 < count_occ (a_id a) lv)%nat ->
+     exists e, fm_get (a_id a) (ms_args m) = Some e /\ m_raw e = occ_groups c (a_id a) lv /\ m_source e = Some SCmdLine) /\
+  (count_occ (a_id a) lv = 0%nat ->
+     forall e, fm_get (a_id a) (ms_args m) = Some e -> m_source e = Some SEnv \/ m_source e = Some SDefault).
+Proof. exact wide_append_graph. Qed.
+Print Assumptions C07_wide_append_graph.
+
+(** ======== round 3: the default of a flag comes from [Arg::_build], required or not (ParseProofs/ActionsRequired.v) ======== *)
+(** every argument of the (unbuilt) definition is in the built command as [_build] left it *)
+Theorem C07_build_self_from : forall c a0, s_built (c_set c) = false -> In a0 (c_args c) ->
+  exists a, In a (c_args (build_self c)) /\ built_from a0 a.
+Proof. exact build_self_from. Qed.
+Print Assumptions C07_build_self_from.
+
+Theorem C07_built_flag_default : forall c a0 b, s_built (c_set c) = false -> In a0 (c_args c) ->
+  a_action a0 = Some (flag_action b) -> a_default a0 = [] -> a_default_missing a0 = [] ->
+  exists a, In a (c_args (build_self c)) /\ a_id a = a_id a0 /\ a_required a = a_required a0 /\
+    a_get_action a = flag_action b /\ a_default a = [flag_value (negb b)] /\ a_default_missing a = [flag_value b] /\
+    a_env a = a_env a0 /\ a_default_ifs a = a_default_ifs a0 /\ a_delim a = a_delim a0.
+Proof. exact built_flag_default. Qed.
+Print Assumptions C07_built_flag_default.
+
+Theorem C07_built_count_default : forall c a0, s_built (c_set c) = false -> In a0 (c_args c) ->
+  a_action a0 = Some ACount -> a_default a0 = [] ->
+  exists a, In a (c_args (build_self c)) /\ a_id a = a_id a0 /\ a_required a = a_required a0 /\
+    a_get_action a = ACount /\ a_default a = [[48]] /\
+    a_env a = a_env a0 /\ a_default_ifs a = a_default_ifs a0 /\ a_delim a = a_delim a0.
+Proof. exact built_count_default. Qed.
+Print Assumptions C07_built_count_default.
+
+(** a flag of the definition - [a_required a0] is NOT constrained - whose occurrences were removed by a later argument in
+    an override relation with it reports the action's default, source DefaultValue; [get_flag] reads [negb b] *)
+Theorem C07_wide_overridden_flag_default : forall c0 bin toks os1 o os2 m a0 b,
+  let c := build_self (with_bin c0 bin) in
+  wide_class c0 bin toks (os1 ++ o :: os2) -> parse_top c0 (bin :: toks) = OOk m ->
+  s_built (c_set c0) = false -> In a0 (c_args c0) ->
+  a_action a0 = Some (flag_action b) -> a_default a0 = [] -> a_default_missing a0 = [] ->
+  a_env a0 = None -> a_default_ifs a0 = [] -> a_delim a0 = None ->
+  beq (a_id (o_arg o)) (a_id a0) = false -> overridden c (o_arg o) (a_id a0) = true ->
+  Forall (fun o' => beq (a_id (o_arg o')) (a_id a0) = false) os2 ->
+  exists e, fm_get (a_id a0) (ms_args m) = Some e /\ m_raw e = [[flag_value (negb b)]] /\ m_source e = Some SDefault /\
+            get_flag_view m (a_id a0) = Some (negb b).
+Proof. exact wide_overridden_flag_default. Qed.
+Print Assumptions C07_wide_overridden_flag_default.
